@@ -522,8 +522,8 @@ def run_case(ctx: Ctx, case: dict) -> None:
 
 
 def check(ctx: Ctx) -> None:
-    ctx.given(text_cases, lambda c: run_case(ctx, c), ctx.n(250, 12000))
-    ctx.given(staging_cases, lambda c: run_case(ctx, c), ctx.n(30, 800))
+    ctx.given(text_cases, lambda c: run_case(ctx, c), ctx.n(200, 9600))
+    ctx.given(staging_cases, lambda c: run_case(ctx, c), ctx.n(25, 640))
 
 
 def replay(ctx: Ctx, case: dict) -> None:
